@@ -305,6 +305,230 @@ Proof.
 Qed.
 
 (* ================================================================== *)
+(* F_p[i]: the model's square-and-multiply loop, x2y, the bounded hexRoot search *)
+Lemma mul2_range p a b : 0 < p -> ok2 p (mul2 p a b).
+Proof. intros Hp. unfold mul2, ok2. cbn [fst snd]. split; apply Z.mod_pos_bound; assumption. Qed.
+
+Lemma pow_pos_spec p q : forall e b,
+  pow_pos p e b q = mul2 p e (pw (mul2 p) b q).
+Proof.
+  induction q as [q IH|q IH|]; intros e b; cbn [pow_pos].
+  - rewrite IH, (pw_xI (mul2 p)), <- (mul2A p). reflexivity.
+  - rewrite IH, (pw_xO (mul2 p)). reflexivity.
+  - reflexivity.
+Qed.
+
+Lemma pow_pos_range p q e b : 0 < p -> ok2 p (pow_pos p e b q).
+Proof. intros Hp. rewrite pow_pos_spec. apply mul2_range. exact Hp. Qed.
+
+Lemma mul2_1_l' p a : 1 < p -> ok2 p a -> mul2 p (1, 0) a = a.
+Proof.
+  intros Hp [H1 H2]. rewrite mul2_eq. destruct a as [x y]. cbn [fst snd] in *.
+  f_equal; [replace (1 * x - 0 * y) with x by ring|replace (1 * y + 0 * x) with y by ring];
+    apply Z.mod_small; assumption.
+Qed.
+
+Lemma eq2_eq a b : eq2 a b = true <-> a = b.
+Proof.
+  destruct a as [a1 a2], b as [b1 b2]. unfold eq2. cbn [fst snd].
+  rewrite andb_true_iff, !Z.eqb_eq. split; [intros [-> ->]; reflexivity|intros [= -> ->]; auto].
+Qed.
+
+Lemma x2y_iff p X r : 1 < p -> (x2y p X r = true <-> mul2 p r r = X).
+Proof.
+  intros Hp. unfold x2y. rewrite eq2_eq.
+  change (pow2 p r 2) with (mul2 p (1, 0) (mul2 p r r)).
+  rewrite mul2_1_l' by (try apply mul2_range; lia). reflexivity.
+Qed.
+
+Lemma sqrt_loop_sound p n : forall X y r, sqrt_loop p n X y = Some r -> x2y p X r = true.
+Proof.
+  induction n as [|n IH]; intros X y r; cbn [sqrt_loop]; [discriminate|].
+  destruct (x2y p X y) eqn:E; [intros [= <-]; exact E|apply IH].
+Qed.
+Lemma sqrt_loop_range p n : forall X y r, 0 < p -> ok2 p y -> sqrt_loop p n X y = Some r -> ok2 p r.
+Proof.
+  induction n as [|n IH]; intros X y r Hp Hy; cbn [sqrt_loop]; [discriminate|].
+  destruct (x2y p X y); [intros [= <-]; exact Hy|]. apply IH; [exact Hp|apply mul2_range; exact Hp].
+Qed.
+(* the j-th candidate of the search *)
+Fixpoint hiter (p : Z) (j : nat) (y : gfp2) : gfp2 :=
+  match j with O => y | S j' => hiter p j' (mul2 p y hexRoot) end.
+Lemma sqrt_loop_finds p j : forall n X y, (j < n)%nat ->
+  x2y p X (hiter p j y) = true ->
+  exists r, sqrt_loop p n X y = Some r.
+Proof.
+  induction j as [|j IH]; intros n X y Hn H; (destruct n as [|n]; [lia|]); cbn [sqrt_loop].
+  - cbn [hiter] in H. rewrite H. eexists; reflexivity.
+  - destruct (x2y p X y); [eexists; reflexivity|].
+    apply IH; [lia|]. exact H.
+Qed.
+
+Lemma pow2_range p x e : 1 < p -> ok2 p (pow2 p x e).
+Proof.
+  intros Hp. unfold pow2. destruct e; try (split; cbn [fst snd]; lia). apply pow_pos_range. lia.
+Qed.
+
+Lemma sqrt_gfp2_unfold p X :
+  sqrt_gfp2 p X = sqrt_loop p (Z.to_nat hexRootOrder) X (pow2 p X sqrtExp).
+Proof. reflexivity. Qed.
+
+Lemma sqrt_gfp2_sound p X r : 1 < p -> sqrt_gfp2 p X = Some r -> ok2 p r /\ mul2 p r r = X.
+Proof.
+  intros Hp H. rewrite sqrt_gfp2_unfold in H. split.
+  - apply sqrt_loop_range in H; [exact H|lia|]. apply pow2_range. exact Hp.
+  - apply sqrt_loop_sound in H. apply x2y_iff in H; assumption.
+Qed.
+
+(* ---------------- the search always succeeds on squares (BN254 constants) ---------------- *)
+Definition sqrtExp_pos : positive := Z.to_pos sqrtExp.
+Definition E16 : positive := Z.to_pos ((P * P - 1) / 16).
+Definition hG : gfp2 := mul2 P hexRoot hexRoot.
+Definition hG2 : gfp2 := mul2 P hG hG.
+Definition hG4 : gfp2 := mul2 P hG2 hG2.
+
+Lemma exp_fact1 : (sqrtExp_pos + sqrtExp_pos = 1 + E16)%positive.
+Proof. vm_compute. reflexivity. Qed.
+Lemma exp_fact2 : Z.to_pos (P * P - 1) = ((E16 * 8)~0)%positive.
+Proof. vm_compute. reflexivity. Qed.
+Lemma sqrtExp_is_pos : sqrtExp = Z.pos sqrtExp_pos.
+Proof. reflexivity. Qed.
+Lemma hexRoot_ok : ok2 P hexRoot /\ ok2 P hG /\ ok2 P hG2 /\ ok2 P hG4.
+Proof. vm_compute. repeat split; congruence. Qed.
+Lemma hG4_mone : hG4 = neg2 P (one2).
+Proof. vm_compute. reflexivity. Qed.
+Lemma mone_sq : mul2 P (neg2 P one2) (neg2 P one2) = one2.
+Proof. vm_compute. reflexivity. Qed.
+Lemma loop_bound_ok : (8 <= Z.to_nat hexRootOrder)%nat.
+Proof. unfold hexRootOrder. lia. Qed.
+
+Fixpoint hp (j : nat) : gfp2 :=
+  match j with O => one2 | S j' => mul2 P hexRoot (hp j') end.
+Lemma hp_table (a b c : bool) :
+  mul2 P (hp ((if a then 1 else 0) + (if b then 2 else 0) + (if c then 4 else 0)))
+         (hp ((if a then 1 else 0) + (if b then 2 else 0) + (if c then 4 else 0))) =
+  mul2 P (mul2 P (if a then hG else one2) (if b then hG2 else one2)) (if c then hG4 else one2).
+Proof. destruct a, b, c; vm_compute; reflexivity. Qed.
+
+Section G2.
+  Hypothesis HP : prime P.
+  Notation m2 := (mul2 P).
+  Let P_big : 3 < P := proj1 (proj2 P_facts).
+  Let P_mod4 : P mod 4 = 3 := proj1 P_facts.
+
+  Lemma pw_range x q : ok2 P x -> ok2 P (pw m2 x q).
+  Proof.
+    intros Hx. induction q as [|q IH] using Pos.peano_ind; [exact Hx|].
+    rewrite (pw_succ m2 (mul2A P)). apply mul2_range. lia.
+  Qed.
+
+  Fixpoint sqn (n : nat) (z : gfp2) : gfp2 :=
+    match n with O => z | S n' => m2 (sqn n' z) (sqn n' z) end.
+  Lemma sqn_range n z : ok2 P z -> ok2 P (sqn n z).
+  Proof. intros Hz. destruct n; [exact Hz|]. cbn [sqn]. apply mul2_range. lia. Qed.
+  Lemma sqn_mul n a b : sqn n (m2 a b) = m2 (sqn n a) (sqn n b).
+  Proof.
+    induction n as [|n IH]; [reflexivity|]. cbn [sqn]. rewrite IH.
+    apply (mul4 m2 (mul2A P) (mul2C P)).
+  Qed.
+
+  Lemma one2_ok : ok2 P one2.
+  Proof. split; cbn; lia. Qed.
+
+  Lemma sq_one a : ok2 P a -> m2 a a = one2 -> a = one2 \/ a = neg2 P one2.
+  Proof.
+    intros Ha E. apply (sqr2_eq P HP P_mod4); [exact Ha|exact one2_ok|].
+    rewrite E. symmetry. apply (mul2_1_r P). exact one2_ok.
+  Qed.
+
+  (* one halving step of "v is a 2^(n+1)-th root of unity": multiply by c, a 2^(n+1)-th
+     primitive root, when v^(2^n) = -1 *)
+  Lemma root_step n v c : ok2 P v -> ok2 P c -> sqn n c = neg2 P one2 -> sqn (S n) v = one2 ->
+    exists b : bool, sqn n (m2 v (if b then c else one2)) = one2.
+  Proof.
+    intros Hv Hc Ec E. cbn [sqn] in E.
+    apply sq_one in E; [|apply sqn_range; exact Hv]. destruct E as [E|E].
+    - exists false. rewrite (mul2_1_r P) by exact Hv. exact E.
+    - exists true. rewrite sqn_mul, E, Ec. exact mone_sq.
+  Qed.
+
+  Lemma iter_hex j : forall y, ok2 P y -> hiter P j y = m2 y (hp j).
+  Proof.
+    induction j as [|j IH]; intros y Hy; cbn [hiter hp].
+    - symmetry. apply (mul2_1_r P). exact Hy.
+    - rewrite IH by (apply mul2_range; lia). rewrite <- (mul2A P). reflexivity.
+  Qed.
+
+  Theorem sqrt_gfp2_complete y : ok2 P y -> y <> zero2 ->
+    exists r, sqrt_gfp2 P (m2 y y) = Some r.
+  Proof.
+    intros Hy Hnz. rewrite sqrt_gfp2_unfold. set (X := m2 y y).
+    assert (HX : ok2 P X) by (apply mul2_range; lia).
+    set (y0 := pow2 P X sqrtExp).
+    set (u := pw m2 X E16).
+    assert (Hu : ok2 P u) by (apply pw_range; exact HX).
+    assert (Ey0 : y0 = pw m2 X sqrtExp_pos).
+    { unfold y0. rewrite sqrtExp_is_pos. unfold pow2. rewrite pow_pos_spec.
+      apply mul2_1_l'; [lia|]. apply pw_range. exact HX. }
+    assert (Hy0 : ok2 P y0) by (rewrite Ey0; apply pw_range; exact HX).
+    assert (Esq : m2 y0 y0 = m2 X u).
+    { rewrite Ey0, <- (pw_add m2 (mul2A P)), exp_fact1, (pw_add m2 (mul2A P)). reflexivity. }
+    assert (Eu8 : sqn 3 u = one2).
+    { change (sqn 3 u) with (pw m2 u 8). unfold u.
+      rewrite (pw_pw m2 (mul2A P)). unfold X. rewrite <- (pw_xO m2), <- exp_fact2.
+      apply (fermat2 P HP P_mod4); assumption. }
+    destruct hexRoot_ok as [Hh [Hg [Hg2 Hg4]]].
+    destruct (root_step 2 u hG Hu Hg hG4_mone Eu8) as [a Ea].
+    set (v := m2 u (if a then hG else one2)) in *.
+    assert (Hv : ok2 P v) by (apply mul2_range; lia).
+    destruct (root_step 1 v hG2 Hv Hg2 hG4_mone Ea) as [b Eb].
+    set (w := m2 v (if b then hG2 else one2)) in *.
+    assert (Hw : ok2 P w) by (apply mul2_range; lia).
+    destruct (root_step 0 w hG4 Hw Hg4 hG4_mone Eb) as [c Ec].
+    cbn [sqn] in Ec.
+    set (j := ((if a then 1 else 0) + (if b then 2 else 0) + (if c then 4 else 0))%nat).
+    apply (sqrt_loop_finds P j).
+    - pose proof loop_bound_ok. subst j. destruct a, b, c; cbn; lia.
+    - apply x2y_iff; [lia|]. fold y0. rewrite iter_hex by exact Hy0.
+      rewrite (mul4 m2 (mul2A P) (mul2C P)), Esq. subst j. rewrite hp_table.
+      rewrite <- (mul2A P X u), (mul2A P u), (mul2A P u). fold v. fold w. rewrite Ec.
+      apply (mul2_1_r P). exact HX.
+  Qed.
+
+  Lemma pw_zero2 q : pw m2 zero2 q = zero2.
+  Proof.
+    induction q as [|q IH] using Pos.peano_ind; [reflexivity|].
+    rewrite (pw_succ m2 (mul2A P)), IH. rewrite mul2_eq. unfold zero2. cbn [fst snd].
+    rewrite !Z.mul_0_l. change (0 - 0) with 0. change (0 + 0) with 0.
+    rewrite Z.mod_0_l by lia. reflexivity.
+  Qed.
+
+  (* every square of F_p[i] has its root found within the loop bound; the root is a root *)
+  Theorem sqrt_gfp2_finds_roots y : ok2 P y ->
+    exists r, sqrt_gfp2 P (m2 y y) = Some r /\ ok2 P r /\ (r = y \/ r = neg2 P y).
+  Proof.
+    intros Hy.
+    assert (Hex : exists r, sqrt_gfp2 P (m2 y y) = Some r).
+    { destruct (Z.eq_dec (fst y) 0) as [E1|E1]; [destruct (Z.eq_dec (snd y) 0) as [E2|E2]|].
+      - destruct y as [y1 y2]. cbn [fst snd] in *. subst.
+        exists zero2. rewrite sqrt_gfp2_unfold.
+        assert (E : pow2 P (m2 (0, 0) (0, 0)) sqrtExp = zero2).
+        { rewrite sqrtExp_is_pos. unfold pow2. rewrite pow_pos_spec.
+          replace (m2 (0, 0) (0, 0)) with zero2 by (vm_compute; reflexivity).
+          rewrite pw_zero2. vm_compute. reflexivity. }
+        rewrite E. replace (m2 (0, 0) (0, 0)) with zero2 by (vm_compute; reflexivity).
+        pose proof loop_bound_ok as B. destruct (Z.to_nat hexRootOrder) as [|n]; [lia|].
+        cbn [sqrt_loop]. replace (x2y P zero2 zero2) with true by (vm_compute; reflexivity).
+        reflexivity.
+      - apply sqrt_gfp2_complete; [exact Hy|]. intros E. apply E2. rewrite E. reflexivity.
+      - apply sqrt_gfp2_complete; [exact Hy|]. intros E. apply E1. rewrite E. reflexivity. }
+    destruct Hex as [r Hr]. exists r. split; [exact Hr|].
+    apply sqrt_gfp2_sound in Hr; [|lia]. destruct Hr as [Hr1 Hr2]. split; [exact Hr1|].
+    apply (sqr2_eq P HP P_mod4); assumption.
+  Qed.
+End G2.
+
+(* ================================================================== *)
 (* the executable validity predicate is the curve equation with reduced coordinates *)
 Lemma valid1_iff p x y : valid1 p (Aff1 x y) = true <->
   (0 <= x < p /\ 0 <= y < p /\ (y * y) mod p = (x * x * x + 3) mod p).
